@@ -3,6 +3,7 @@
 From Coq Require Import List NArith ZArith Permutation.
 From Coq.Strings Require Import Byte.
 From SP Require Import Bytes Params Msgpack Crypto Errors Packets Chunker Rand Verify Encrypt Decrypt Signcrypt SigncryptProofs.
+From SP Require Import BaseX Encodings Armor ArmorProofs ArmoredForms.
 Import ListNotations.
 Open Scope N_scope.
 
@@ -92,6 +93,16 @@ Theorem C03_forms_agree (signer : option bytes) boxes syms (pieces : list bytes)
 Proof. exact (signcrypt_stream_oneshot c signer boxes syms pieces r). Qed.
 End C03.
 
+(* BINARY AND ARMORED FORMS AGREE: the armored all-at-once entry point is the binary one composed
+   with dearmoring; on the armored form of ANY binary message (genuine or not) it returns exactly
+   what the binary entry point returns on that message, plus the brand. *)
+Theorem C03_armored_form_agrees (c : crypto) (kr : keyring) (signers : sigring) (rv : resolver) (wire brand : bytes) :
+  brand_ok brand ->
+  dearmor62_signcrypt_open c kr signers rv (armor62_seal wire mt_encryption brand) =
+  bind (signcrypt_open_all c kr signers rv wire) (fun r => Ok (fst r, snd r, brand)).
+Proof. exact (armored_signcrypt_agrees c kr signers rv wire brand). Qed.
+
+Print Assumptions C03_armored_form_agrees.
 Print Assumptions C03_sender_structure.
 Print Assumptions C03_roundtrip_box.
 Print Assumptions C03_roundtrip_sym.
